@@ -27,6 +27,8 @@ func c20Options(opts []c20model.Opt) []Option {
 			real = append(real, WithEndpointURL(o.S))
 		case "urlPath":
 			real = append(real, WithURLPath(o.S))
+		case "insecure":
+			real = append(real, WithInsecure())
 		case "headers":
 			real = append(real, WithHeaders(o.H))
 		case "compression":
